@@ -694,7 +694,8 @@ fn gen(args: &Args, emit: &mut dyn FnMut(String)) {
     }
 
     // ---- S: grid of real sessions
-    let durations: Vec<u64> = if thorough { vec![5, 9, 10, 11, 30, 31, 60, 600, 3600, 86_400] } else { vec![5, 11, 60, 3600, 86_400] };
+    // 500_000_000 s (almost 16 years): Expires no longer fits the 32-bit NTP seconds of era 0
+    let durations: Vec<u64> = if thorough { vec![5, 9, 10, 11, 30, 31, 60, 600, 3600, 86_400, 500_000_000] } else { vec![5, 11, 60, 3600, 86_400, 500_000_000] };
     // margins (estimate minus expiry), stepped around the expiry instant; the +-2 s band is excluded
     let margins: Vec<i128> = if thorough {
         vec![-3600 * NS, -60 * NS, -10 * NS, -4 * NS, -3 * NS, -2 * NS - 500_000_000, -2 * NS - 1_000_000, 2 * NS + 1_000_000, 2 * NS + 500_000_000, 3 * NS, 4 * NS, 10 * NS, 60 * NS, 3600 * NS]
